@@ -927,21 +927,174 @@ def specs(tier):
             # the user's edit adds a body to a bodiless message / removes the body of a message that had one
             if scen in BODY_EDIT and "i" in pol and not (quick and touched > 2):
                 out.append((scen, pol, True, "body"))
+    # the client-replay entry path (ReplayHandler.handle_hook): request / response hook of the replayed flow
+    for pol in ("i-", "-i", "ii", "k-", "-k", "ik", "ki"):
+        out.append(("replay", pol, True, "inplace"))
     return out
 
 
+class ReplayExec:
+    """the client-replay entry path: a flow replayed by the real ClientPlayback addon runs through ReplayHandler.handle_hook
+    (not ProxyConnectionHandler's); the addon policy intercepts / kills it in its request or response hook."""
+
+    def __init__(self, pol, edit="inplace"):
+        self.pol, self.edit = pol, edit  # pol: 2 chars for (request hook, response hook), each '-', 'i' or 'k'
+
+    def run(self, prefix, t: Tally, verbose=False):
+        from vmc.drivers import replaydrv as rd
+
+        f = rd.http_flow(mk(0).decode())
+        held = []  # [hook name, state, bytes at the origin when it was intercepted]
+        log = []
+        kill_at = {}
+
+        def origin_bytes():
+            return b"".join(e.w.data for e in rw.servers)
+
+        def policy(name, data, world):
+            if data is not f or name not in ("request", "response"):
+                return
+            p = self.pol[0 if name == "request" else 1]
+            if p == "i":
+                data.intercept()
+                held.append([name, "held", len(origin_bytes())])
+                log.append((name, "held"))
+            elif p == "k" and data.killable:
+                kill_at[name] = len(origin_bytes())
+                data.kill()
+                log.append((name, "killed_in_hook"))
+
+        rw = rd.ReplayWorld(policy=policy)
+        choices, widths, trace = [], [], []
+        feats0 = {"proto": "http1-replay"}
+        case = {"scen": "replay", "pol": self.pol, "eager": True, "edit": self.edit, "choices": None}
+        answered = set()
+        ends = []
+
+        def choose(n):
+            i = prefix[len(choices)] if len(choices) < len(prefix) else 0
+            if i >= n:
+                raise HarnessError("choice out of range while replaying %r" % (prefix,))
+            choices.append(i)
+            widths.append(n)
+            return i
+
+        try:
+            rw.start_playback()
+            rw.start_replay([f])
+            for _ in range(30):
+                live = [h for h in held if h[1] == "held"]
+                pend = rw.pending_connects()
+                srv = [e for e in rw.servers if e.state == "open" and not e.r.eof and not e.w.closed and id(e) not in answered and http1ref.parse_requests(e.w.data)[0]]
+                acts = []
+                if live:
+                    acts.append(("resume",))
+                if pend:
+                    acts.append(("ok",))
+                if srv:
+                    acts.append(("resp",))
+                if live:
+                    if f.killable:
+                        acts.append(("kill",))
+                    acts.append(("edit",))
+                if not acts:
+                    break
+                a = acts[choose(len(acts))] if len(acts) > 1 else acts[0]
+                trace.append(a[0])
+                if a[0] == "ok":
+                    rw.connect_ok(pend[0])
+                elif a[0] == "resp":
+                    answered.add(id(srv[0]))
+                    rw.server_send(srv[0], http_response(1, False))
+                else:
+                    h = live[0]
+                    if a[0] == "resume":
+                        h[1] = "resumed"
+                    elif a[0] == "edit":
+                        h[1] = "edited"
+                        if h[0] == "request":
+                            f.request.path = "/" + ed(0).decode()
+                        else:
+                            f.response.content = ed(1)
+                    else:
+                        h[1] = "killed"
+                        kill_at[h[0]] = len(origin_bytes())
+                    if a[0] == "kill":
+                        rw.act(f.kill)
+                        ends.append((h[0], not f.intercepted and rw.cp.inflight is None))  # the playback loop has moved on
+                    else:
+                        rw.act(f.resume)
+                    log.append((h[0], h[1]))
+                t.transitions += 1
+                for h in held:
+                    if h[1] == "held":
+                        now = len(origin_bytes())
+                        t.judge("nothing_sent_while_intercepted", now == h[2] and (h[0] != "request" or mk(0) not in origin_bytes()), dict(feats0, dir="c2s", hook=h[0]),
+                                dict(case, choices=list(choices)), "nothing reaches the origin while the replayed flow is intercepted", origin_bytes()[-120:])
+                t.state(["replay", list(log), len(origin_bytes()), len(pend)])
+            else:
+                raise HarnessError("replay schedule does not terminate: %r" % (trace,))
+            for _ in range(20):
+                progressed = False
+                if f.intercepted:
+                    rw.act(f.resume)
+                    progressed = True
+                for e in rw.pending_connects():
+                    rw.connect_fail(e)
+                    progressed = True
+                for e in rw.servers:
+                    if e.state == "open" and not e.r.eof and not e.w.closed:
+                        rw.server_eof(e)
+                        progressed = True
+                if not progressed:
+                    break
+            rw.shutdown_playback()
+            case["choices"] = list(choices)
+            got = origin_bytes()
+            fate = dict((n, s) for n, s in log if s != "held")
+            t.case(case if len(t.samples) < 1 else None, nontrivial=bool(log), key=case)
+            n_orig, n_edit = got.count(mk(0)), got.count(ed(0))
+            fr = dict(feats0, dir="c2s", hook="request")
+            t.judge("never_forwarded_twice", n_orig + n_edit <= 1, fr, case, "at most one copy at the origin", {"orig": n_orig, "edited": n_edit})
+            killed = [n for n, s in fate.items() if s in ("killed", "killed_in_hook")]
+            if fate.get("request") == "resumed" and not killed:
+                t.judge("resume_forwards_once", n_orig == 1 and n_edit == 0, dict(fr, edited=False, count=min(n_orig, 2)), case, "exactly one copy of the resumed request", got[-120:])
+            if fate.get("request") == "edited":
+                t.judge("resume_forwards_edited_only", n_orig == 0 and (n_edit == 1 or bool(killed)), dict(fr, edited=True), case, "the edited request, once", got[-120:])
+            if fate.get("response") == "edited" and not killed:
+                t.judge("resume_forwards_edited_only", f.response is not None and f.response.raw_content == ed(1), dict(feats0, dir="s2c", hook="response", edited=True), case,
+                        "the user's edit of the replayed response stays on the flow", f.response.raw_content if f.response else None)
+            for n in killed:
+                kind = "user_on_intercepted" if fate[n] == "killed" else "addon_in_hook"
+                t.judge("kill_sends_nothing_further", len(got) == kill_at[n], dict(feats0, dir="c2s", hook=n, kill=kind), case, "nothing reaches the origin after the kill", got[kill_at[n]:][:120])
+                t.judge("kill_sets_error", f.error is not None and f.error.msg == KILLED, dict(feats0, hook=n), case, "flow.error = killed", f.error.msg if f.error else None)
+            for n, ended in ends:
+                t.judge("kill_ends_flow", ended, dict(feats0, dir="c2s", hook=n), case, "the replay of the killed flow ends", None)
+            names = [h for h, d in rw.hook_objs if d is f]
+            t.judge("handler_terminates", not rw.loop.pending_tasks(), dict(feats0, after_user_kill="killed" in fate.values()), case, "no task left after the replay", [repr(x)[:80] for x in rw.loop.pending_tasks()][:3])
+            t.outcome(["replay", sorted(fate.items()), n_orig, n_edit, names])
+            if verbose:
+                print("trace", trace, "log", log, "hooks", names)
+                print("origin got", got[-200:], "response on flow", f.response.raw_content if f.response else None, "error", f.error)
+        finally:
+            rw.dispose()
+        return choices, widths, None
+
+
 def make_exec(key):
+    if key[0] == "replay":
+        return ReplayExec(key[1], key[3])
     return Exec(*key)
 
 
 def run(ctx):
     bound = ctx.pick(3, 4)
     sp = specs(ctx.tier)
-    ctx.bounds = {"scenarios": list(SCENARIOS), "policies": "per message one of - (pass), i (intercept), k (kill in hook); %s" % ctx.pick("<= 3 not passed, <= 1 k", "any number not passed, <= 2 k"),
+    ctx.bounds = {"scenarios": list(SCENARIOS) + ["replay (ClientPlayback / ReplayHandler entry path)"], "policies": "per message one of - (pass), i (intercept), k (kill in hook); %s" % ctx.pick("<= 3 not passed, <= 1 k", "any number not passed, <= 2 k"),
                   "user_actions": ["resume", "kill", "edit+resume (in place; for h1/h2 also by replacing the message object)"], "deviation_bound": bound, "specs": len(sp)}
     ctx.log("%d specs, deviation bound %d" % (len(sp), bound))
     mbfs.dfs_dev_many(sp, make_exec, bound, ctx.tally, log=ctx.log)
 
 
 def replay(case, t, verbose=False):
-    Exec(case["scen"], case["pol"], bool(case["eager"]), case.get("edit", "inplace")).run(tuple(case["choices"]), t, verbose=verbose)
+    make_exec((case["scen"], case["pol"], bool(case["eager"]), case.get("edit", "inplace"))).run(tuple(case["choices"]), t, verbose=verbose)
